@@ -111,8 +111,9 @@ pub fn gen_input(rng: &mut Rng, kind: u64, small: bool) -> Input {
         }
         2 => {
             let (spec, _) = gen_object(rng, enc, &o);
-            let b = build(&spec, rng);
-            Input { bytes: b.bytes, what: format!("generated {}", enc.name()), class: "generated" }
+            let mut b = build(&spec, rng);
+            let log = if rng.chance(1, 6) { mutate::extended_encoding(rng, &mut b) } else { Vec::new() };
+            Input { bytes: b.bytes, what: format!("generated {} {:?}", enc.name(), log), class: "generated" }
         }
         3 | 4 => {
             let (spec, _) = gen_object(rng, enc, &o);
